@@ -69,6 +69,11 @@ func runConcurrent(t *verifsim.Tape, cfg engine.Config) *engine.Outcome {
 	}
 	sim := verifsim.NewSim(t)
 	sim.Strategy = verifsim.Strategy(t.Draw("strategy", 4))
+	sim.KeepLog = cfg.Verbose
+	// every range over a map in goa and in the generated code iterates in an order drawn from the tape: left to
+	// the Go runtime, the order in which a task validates the entries of a map (hence where its lock operations
+	// fall) differs from one execution of the same tape to the next
+	sim.MapMode = verifsim.MapSeeded
 	taskOf := func() *ctask {
 		if tk := verifsim.CurTask(); tk != nil {
 			if ct, ok := tk.Local.(*ctask); ok {
@@ -303,7 +308,7 @@ func runConcurrent(t *verifsim.Tape, cfg engine.Config) *engine.Outcome {
 	o.Nontrivial = nTasks > 1
 	o.Distinct = name + "/" + o.SchedHash
 	o.Digest = hex.EncodeToString(h.Sum(nil))[:16] + "/" + o.SchedHash
-	o.Sample = map[string]any{"mode": "generated-server", "design": name, "tasks": nTasks, "requests": total, "strategy": int(sim.Strategy), "steps": sim.Steps,
+	o.Sample = map[string]any{"mode": "generated-server", "design": name, "tasks": nTasks, "requests": total, "strategy": int(sim.Strategy), "steps": sim.Steps, "schedule": sim.Sched,
 		"client0": func() (r []string) {
 			for _, x := range tasks[0].xs {
 				r = append(r, x.svc.Name+"."+x.m.Name+":"+x.mode)
